@@ -49,7 +49,11 @@ func startChild(dir string, armStart string, traceStart bool) (*proc, error) {
 	if traceStart {
 		c.Env = append(c.Env, "VERIF_C07_TRACE_START=1")
 	}
-	c.Stderr = os.Stderr
+	if f, err := os.OpenFile(filepath.Join(filepath.Dir(dir), filepath.Base(dir)+".stderr"), os.O_APPEND|os.O_CREATE|os.O_WRONLY, 0o600); err == nil {
+		c.Stderr = f
+	} else {
+		c.Stderr = os.Stderr
+	}
 	stdin, err := c.StdinPipe()
 	if err != nil {
 		return nil, err
